@@ -86,7 +86,8 @@ pub struct World {
     pub emitted: BTreeSet<String>,
     /// ground truth: names of structs reachable from a module-scope variable
     pub host: BTreeSet<String>,
-    /// ground truth: per vertex entry (name, struct parameters in order)
+    /// ground truth: per vertex entry (name, struct parameters in order), in the order the entry points are
+    /// DECLARED in the text (entry points are written in shuffled order)
     pub vertex_entries: Vec<(String, Vec<String>)>,
     /// does any emitted struct end in a runtime-sized array
     pub has_runtime: bool,
@@ -238,7 +239,11 @@ pub struct WorldSpec {
 pub fn world(spec: &WorldSpec, rng: &mut Rng) -> World {
     let mut w = World::default();
     let mut text_globals = String::new();
-    let mut text_fns = String::new();
+    // entry points (and helpers) as separate chunks: they are written in shuffled declaration order at the end
+    // (a consuming entry point may stand ABOVE the entry point that produces its input)
+    let mut fn_chunks: Vec<(Option<String>, String)> = vec![];
+    // `alias` declarations used by loose (bound, non-struct) entry parameters / as another spelling of an input struct
+    let mut aliases: Vec<String> = vec![];
     let mut group_slots: Vec<(u32, u32)> = vec![];
     let mut host_roots: Vec<Ty> = vec![];
     let mut entry_params: BTreeSet<usize> = BTreeSet::new();
@@ -339,6 +344,8 @@ pub fn world(spec: &WorldSpec, rng: &mut Rng) -> World {
     // which host structs get a variable of their own (the others are reachable only through nesting, or unused)
     let mut binding = 0u32;
     let mut group = 0u32;
+    // host structs that are the (element) type of a buffer variable declared here, i.e. BEFORE the later `scene_k` variables
+    let mut declared_hosts: Vec<usize> = vec![];
     for hi in 0..spec.n_host {
         let nested_somewhere = w.structs[hi + 1..].iter().any(|s| {
             let mut c = BTreeSet::new();
@@ -392,6 +399,7 @@ pub fn world(spec: &WorldSpec, rng: &mut Rng) -> World {
             Space::Workgroup => format!("var<workgroup> {var}: {store};"),
         };
         if matches!(sp, Space::Uniform | Space::StorageRead | Space::StorageRw) {
+            declared_hosts.push(hi);
             group_slots.push((group, binding));
             binding += rng.range(1, 3) as u32;
             if rng.chance(1, 4) {
@@ -586,6 +594,23 @@ pub fn world(spec: &WorldSpec, rng: &mut Rng) -> World {
         None
     };
     // vertex entries
+    // naga gives a type declared through `alias` a NAME (`alias LooseUv = vec2<f32>` is a named vector type distinct from
+    // the plain `vec2<f32>`); an alias of a struct is the struct's own handle. Neither changes which parameters are structs.
+    let alias_loose = spec.n_vertex_entries > 0 && rng.chance(1, 2);
+    let alias_index = spec.n_vertex_entries > 0 && rng.chance(1, 2);
+    let mut struct_alias: Option<(usize, String)> = None;
+    if !vin.is_empty() && rng.chance(1, 4) {
+        let si = vin[rng.below(vin.len())];
+        let a = format!("{}Alias", w.structs[si].name);
+        aliases.push(format!("alias {a} = {};", w.structs[si].name));
+        struct_alias = Some((si, a));
+    }
+    if alias_loose {
+        aliases.push("alias LooseUv = vec2<f32>;".into());
+    }
+    if alias_index {
+        aliases.push("alias IndexT = u32;".into());
+    }
     for e in 0..spec.n_vertex_entries {
         let mut params: Vec<String> = vec![];
         let mut list: Vec<String> = vec![];
@@ -593,28 +618,38 @@ pub fn world(spec: &WorldSpec, rng: &mut Rng) -> World {
         rng.shuffle(&mut chosen);
         let take = rng.range(0, chosen.len());
         for (pi, &si) in chosen.iter().take(take).enumerate() {
-            params.push(format!("in{pi}: {}", w.structs[si].name));
+            let spelled = match &struct_alias {
+                Some((ai, a)) if *ai == si && rng.chance(2, 3) => a.clone(),
+                _ => w.structs[si].name.clone(),
+            };
+            params.push(format!("in{pi}: {spelled}"));
             list.push(w.structs[si].name.clone());
             entry_params.insert(si);
         }
         let uses = |n: &str| chosen.iter().take(take).any(|si| w.structs[*si].members.iter().any(|m| m.name == n));
+        let index_ty = |rng: &mut Rng| if alias_index && rng.chance(2, 3) { "IndexT" } else { "u32" };
         if !uses("vertex_idx") && rng.chance(1, 2) {
-            params.insert(rng.below(params.len() + 1), "@builtin(vertex_index) vi: u32".into());
+            let t = index_ty(rng);
+            params.insert(rng.below(params.len() + 1), format!("@builtin(vertex_index) vi: {t}"));
         }
         if !uses("instance_idx") && rng.chance(1, 3) {
-            params.insert(rng.below(params.len() + 1), "@builtin(instance_index) ii: u32".into());
+            let t = index_ty(rng);
+            params.insert(rng.below(params.len() + 1), format!("@builtin(instance_index) ii: {t}"));
         }
-        if rng.chance(1, 4) {
-            params.push(format!("@location({}) loose: vec2<f32>", 60 + e));
+        if rng.chance(1, 3) {
+            let t = if alias_loose && rng.chance(2, 3) { "LooseUv" } else { "vec2<f32>" };
+            let at = if rng.chance(1, 2) { params.len() } else { rng.below(params.len() + 1) };
+            params.insert(at, format!("@location({}) loose: {t}", 60 + e));
         }
         let name = format!("{}{e}", rng.pick(&["vs_main", "vertexShader", "VS_"]));
-        match inter {
+        let text = match inter {
             Some(oi) => {
                 entry_results.insert(oi);
-                text_fns.push_str(&format!("@vertex\nfn {name}({}) -> {} {{ var o: {}; return o; }}\n", params.join(", "), w.structs[oi].name, w.structs[oi].name));
+                format!("@vertex\nfn {name}({}) -> {} {{ var o: {}; return o; }}\n", params.join(", "), w.structs[oi].name, w.structs[oi].name)
             }
-            None => text_fns.push_str(&format!("@vertex\nfn {name}({}) -> @builtin(position) vec4<f32> {{ return vec4<f32>(0.0); }}\n", params.join(", "))),
-        }
+            None => format!("@vertex\nfn {name}({}) -> @builtin(position) vec4<f32> {{ return vec4<f32>(0.0); }}\n", params.join(", ")),
+        };
+        fn_chunks.push((Some(name.clone()), text));
         w.vertex_entries.push((name, list));
     }
     // one vertex input struct doubles as a storage buffer element now and then ("both" role); with `nested` it is
@@ -638,6 +673,66 @@ pub fn world(spec: &WorldSpec, rng: &mut Rng) -> World {
                     }
                 };
                 text_globals.push_str(&format!("@group({group}) @binding({}) var<storage, read> vertex_pull: {};\n", binding + 1, w.ty_wgsl(&root)));
+                host_roots.push(root);
+            }
+        }
+    }
+    // host structs that NEST a vertex input struct: `Scene { highlighted: V, ambient: vec4<f32>, fog: vec4<f32> }` as the type of
+    // a uniform / storage variable, where V is (preferably) a struct some vertex entry really takes: V is emitted either way, and
+    // its derives / layout assertions show whether it was recognised as host-shareable. V stands first / in the middle / last
+    // (directly or as array element); the other members repeat a type (two `vec4<f32>`) or have a type an EARLIER variable
+    // already has (`vec4<f32>` = `plain_uniform`, which is declared above; a host struct with a variable of its own).
+    {
+        let ok = |si: &usize| Some(*si) != builtin_only && !w.structs[*si].members.iter().any(|m| matches!(m.ty, Ty::Scalar(Sc::F64) | Ty::Vec(_, Sc::F64)));
+        let used: Vec<usize> = vin.iter().copied().filter(|si| entry_params.contains(si)).filter(|si| ok(si)).collect();
+        let pool: Vec<usize> = if !used.is_empty() { used } else { vin.iter().copied().filter(|si| ok(si)).collect() };
+        if !pool.is_empty() && rng.chance(3, 4) {
+            let n_scene = rng.range(1, 2);
+            for k in 0..n_scene {
+                let v = pool[rng.below(pool.len())];
+                // uniform address space: a nested struct must sit at a multiple of 16 - true under WGSL's automatic layout
+                // when the struct's own alignment is 16; every other member below is valid in a uniform buffer as it is
+                let uniform = w.layout(&Ty::Struct(v)).0 == 16 && rng.chance(1, 2);
+                let mut palette: Vec<Ty> = vec![Ty::Vec(4, Sc::F32)];
+                palette.push(match rng.below(4) {
+                    0 => Ty::Mat(4, 4, Sc::F32),
+                    1 => Ty::Vec(4, Sc::U32),
+                    2 => Ty::Scalar(Sc::F32),
+                    _ => Ty::Array(Box::new(Ty::Vec(4, Sc::F32)), 2),
+                });
+                let seen: Vec<usize> = declared_hosts
+                    .iter()
+                    .copied()
+                    .filter(|j| !info[*j].has_runtime && !info[*j].has_bool && !info[*j].has_atomic)
+                    .filter(|j| !uniform || (info[*j].uniform_safe && w.layout(&Ty::Struct(*j)).0 == 16))
+                    .collect();
+                if !seen.is_empty() && rng.chance(1, 2) {
+                    palette.push(Ty::Struct(seen[rng.below(seen.len())]));
+                }
+                let n_fill = rng.range(1, 4);
+                let mut tys: Vec<Ty> = (0..n_fill).map(|_| palette[rng.below(palette.len())].clone()).collect();
+                let nested = if rng.chance(1, 4) { Ty::Array(Box::new(Ty::Struct(v)), rng.range(1, 2) as u32) } else { Ty::Struct(v) };
+                let at = match rng.below(5) {
+                    0 | 1 => 0,
+                    2 => tys.len(),
+                    _ => rng.below(tys.len() + 1),
+                };
+                tys.insert(at, nested);
+                let members = tys.into_iter().enumerate().map(|(mi, ty)| Member { name: if mi == at { "highlighted".to_string() } else { format!("param{mi}") }, ty, attr: String::new(), builtin: false, location: None }).collect();
+                let sname = format!("{}{k}", rng.pick(&["Scene", "FrameData_", "scene_params"]));
+                w.structs.push(SDef { name: sname.clone(), members });
+                let si = w.structs.len() - 1;
+                let (space, store, root) = if uniform {
+                    ("uniform", sname.clone(), Ty::Struct(si))
+                } else {
+                    let access = if rng.chance(1, 2) { "storage, read" } else { "storage, read_write" };
+                    match rng.below(5) {
+                        0 => (access, format!("array<{sname}, 2>"), Ty::Array(Box::new(Ty::Struct(si)), 2)),
+                        1 => (access, format!("array<{sname}>"), Ty::Runtime(Box::new(Ty::Struct(si)))),
+                        _ => (access, sname.clone(), Ty::Struct(si)),
+                    }
+                };
+                text_globals.push_str(&format!("@group({group}) @binding({}) var<{space}> scene_{k}: {store};\n", binding + 2 + k as u32));
                 host_roots.push(root);
             }
         }
@@ -669,7 +764,7 @@ pub fn world(spec: &WorldSpec, rng: &mut Rng) -> World {
             None
         };
         let mut params = vec![];
-        if let (Some(oi), true) = (inter, rng.chance(2, 3)) {
+        if let (Some(oi), true) = (inter, rng.chance(3, 4)) {
             // locations of the two structs would collide only if both had location 0..2 and 3..; they do not
             params.push(format!("stage_in: {}", w.structs[oi].name));
             entry_params.insert(oi);
@@ -681,9 +776,14 @@ pub fn world(spec: &WorldSpec, rng: &mut Rng) -> World {
         match frag_out {
             Some(fo) => {
                 entry_results.insert(fo);
-                text_fns.push_str(&format!("@fragment\nfn fs_main({}) -> {} {{ var o: {}; return o; }}\n", params.join(", "), w.structs[fo].name, w.structs[fo].name));
+                fn_chunks.push((None, format!("@fragment\nfn fs_main({}) -> {} {{ var o: {}; return o; }}\n", params.join(", "), w.structs[fo].name, w.structs[fo].name)));
             }
-            None => text_fns.push_str(&format!("@fragment\nfn fs_main({}) -> @location(0) vec4<f32> {{ return vec4<f32>(1.0); }}\n", params.join(", "))),
+            None => fn_chunks.push((None, format!("@fragment\nfn fs_main({}) -> @location(0) vec4<f32> {{ return vec4<f32>(1.0); }}\n", params.join(", ")))),
+        }
+        // a second consumer of the inter-stage struct that returns nothing (depth-only pass)
+        if let (Some(oi), true) = (inter, rng.chance(1, 4)) {
+            fn_chunks.push((None, format!("@fragment\nfn fs_depth_only(stage_in: {}) {{ }}\n", w.structs[oi].name)));
+            entry_params.insert(oi);
         }
     }
     // compute
@@ -708,7 +808,8 @@ pub fn world(spec: &WorldSpec, rng: &mut Rng) -> World {
             }
             None => String::new(),
         };
-        text_fns.push_str(&format!("fn helper_local() -> i32 {{ var l: LocalOnly; l.n = 3; return l.n; }}\n@compute @workgroup_size(4)\nfn cs_main({p}) {{ var l = LocalOnly(vec3<f32>(0.0), helper_local()); l.n = l.n + 1; }}\n"));
+        fn_chunks.push((None, "fn helper_local() -> i32 { var l: LocalOnly; l.n = 3; return l.n; }\n".to_string()));
+        fn_chunks.push((None, format!("@compute @workgroup_size(4)\nfn cs_main({p}) {{ var l = LocalOnly(vec3<f32>(0.0), helper_local()); l.n = l.n + 1; }}\n")));
     }
 
     // ---------------- ground truth
@@ -738,13 +839,34 @@ pub fn world(spec: &WorldSpec, rng: &mut Rng) -> World {
     let mut order: Vec<usize> = (0..w.structs.len()).collect();
     rng.shuffle(&mut order);
     let mut text = String::new();
-    for i in order {
+    // `alias` declarations stand before, between or after the struct definitions
+    let alias_at: Vec<usize> = aliases.iter().map(|_| rng.below(order.len() + 1)).collect();
+    for (pos, i) in order.into_iter().enumerate() {
+        for (a, at) in aliases.iter().zip(&alias_at) {
+            if *at == pos {
+                text.push_str(a);
+                text.push('\n');
+            }
+        }
         let s = &w.structs[i];
         let ms: Vec<String> = s.members.iter().map(|m| format!("    {}{}{}: {},", m.attr, if m.attr.is_empty() { "" } else { " " }, m.name, w.ty_wgsl(&m.ty))).collect();
         text.push_str(&format!("struct {} {{\n{}\n}}\n", s.name, ms.join("\n")));
     }
+    for (a, at) in aliases.iter().zip(&alias_at) {
+        if *at == w.structs.len() {
+            text.push_str(a);
+            text.push('\n');
+        }
+    }
     text.push_str(&text_globals);
-    text.push_str(&text_fns);
+    // entry points (and the helper) in shuffled declaration order; `vertex_entries` follows the text
+    rng.shuffle(&mut fn_chunks);
+    let by_name: Vec<(String, Vec<String>)> = fn_chunks.iter().filter_map(|(n, _)| n.as_ref()).filter_map(|n| w.vertex_entries.iter().find(|(e, _)| e == n).cloned()).collect();
+    debug_assert_eq!(by_name.len(), w.vertex_entries.len());
+    w.vertex_entries = by_name;
+    for (_, t) in &fn_chunks {
+        text.push_str(t);
+    }
     w.wgsl = text;
     let _ = group_slots;
     w
